@@ -74,6 +74,10 @@ var alphabet = []string{
 // analyzer-dialect extras (padding and the "<default>" token)
 var alphabetPadded = []string{" zzProbe05", "#style ", " #experimental", "<default>", "\tappendAssign"}
 
+// keys that are near misses of the two key kinds: tag words without '#', checker names with '#', doubled '#',
+// case variants. None of them names anything.
+var alphabetSpelling = []string{"style", "diagnostic", "experimental", "performance", "#appendAssign", "#zzProbe05", "##style", "#Style", "#STYLE", "AppendAssign", "appendassign", "# style", "#style#"}
+
 func sp(s string) *string { return &s }
 
 func keyLists(alpha []string, maxLen int) []*string {
@@ -201,7 +205,7 @@ func Run(tier string, seed int64, outDir string) *common.Meta {
 	if tier == "thorough" {
 		nExtra = 6000
 	}
-	full := append(append([]string(nil), alphabet...), alphabetPadded...)
+	full := append(append(append([]string(nil), alphabet...), alphabetPadded...), alphabetSpelling...)
 	randList := func(alpha []string) *string {
 		n := rng.Intn(5)
 		if n == 4 {
@@ -220,6 +224,11 @@ func Run(tier string, seed int64, outDir string) *common.Meta {
 			reg = "all"
 		}
 		extra = append(extra, config{rng.Intn(4) == 0, randList(full), randList(full), reg})
+	}
+	// near-miss spellings: alone in -enable (an empty selection unless enableAll), alone in -disable, next to a real key
+	for _, k := range alphabetSpelling {
+		extra = append(extra, config{false, sp(k), nil, "probe"}, config{false, sp(k), sp(""), "all"}, config{true, nil, sp(k), "probe"},
+			config{false, sp("#style,#diagnostic"), sp(k), "all"}, config{false, sp(k + ",zzProbe05"), sp("#performance"), "probe"})
 	}
 	// defaults on the real registry
 	extra = append(extra, config{false, nil, nil, "all"}, config{true, nil, nil, "all"}, config{false, nil, nil, "real"})
@@ -262,10 +271,10 @@ func Run(tier string, seed int64, outDir string) *common.Meta {
 	nontrivial := 0
 	for i, c := range configs {
 		names, tags := regNames[c.Registry], regTags[c.Registry]
-		// CLI dialect: raw split
+		// CLI dialect: split at commas, blanks around an element dropped (as in the analyzer)
 		en := []string{}
 		if c.Enable != nil {
-			en = strings.Split(*c.Enable, ",")
+			en = trimSplit(*c.Enable)
 		} else {
 			for j, n := range names {
 				if noOptin(tags[j]) {
@@ -275,7 +284,7 @@ func Run(tier string, seed int64, outDir string) *common.Meta {
 		}
 		dis := []string{""}
 		if c.Disable != nil {
-			dis = strings.Split(*c.Disable, ",")
+			dis = trimSplit(*c.Disable)
 		}
 		var want []string
 		for j, n := range names {
@@ -337,6 +346,17 @@ func Run(tier string, seed int64, outDir string) *common.Meta {
 		}
 		if !eqStrs(anRes[i], wantAn) {
 			meta.Fail("C06/analyzer/selection", fmt.Sprintf("analyzer selects %v, the documented rule selects %v", anRes[i], wantAn), c.String())
+		}
+		// "identically in the CLI, its twin binary, the analyzer": the same explicit flag texts select the same set
+		// (the analyzer's "<default>" disable value is its own dialect and excluded)
+		if c.Enable != nil && c.Disable != nil && *c.Disable != "<default>" && results["./cmd/go-critic"][i].Panic == "" {
+			if cliSet := results["./cmd/go-critic"][i].Enabled; !eqStrs(cliSet, anRes[i]) {
+				key := "C06/frontends/same-flag-text-selects-differently"
+				if hasPadding(*c.Enable) || hasPadding(*c.Disable) {
+					key = "C06/frontends/padded-key-selects-differently"
+				}
+				meta.Fail(key, fmt.Sprintf("-enable=%q -disable=%q enableAll=%v: the CLI selects %v, the analyzer selects %v", *c.Enable, *c.Disable, c.All, head(cliSet, 8), head(anRes[i], 8)), map[string]interface{}{"config": c.String(), "cli_args": c.cliArgs()})
+			}
 		}
 		key := fmt.Sprint(results["./cmd/go-critic"][i].Enabled, anRes[i])
 		if !distinct[key] && len(want) > 0 && len(want) < len(names) {
@@ -464,8 +484,11 @@ func endToEnd(meta *common.Meta, tier string, seed int64, outDir string, names [
 	if tier == "thorough" {
 		n = 150
 	}
-	alpha := []string{"appendAssign", "hugeParam", "#diagnostic", "#style", "#performance", "#experimental", "#opinionated", "#security", "unknown", "", "sloppyLen", "ruleguard"}
+	alpha := []string{"appendAssign", "hugeParam", "#diagnostic", "#style", "#performance", "#experimental", "#opinionated", "#security", "unknown", "", "sloppyLen", "ruleguard", " sloppyLen", "#style ", " #performance"}
 	cfgs := []config{{false, nil, nil, "real"}, {true, nil, nil, "real"}, {false, sp("unknown"), nil, "real"}, {true, nil, sp("#diagnostic,#style,#performance"), "real"}}
+	// near-miss spellings of keys (a tag word without '#', a checker name with '#')
+	cfgs = append(cfgs, config{false, sp("style"), nil, "real"}, config{true, nil, sp("experimental,#sloppyLen,##style"), "real"})
+	n += 2
 	for len(cfgs) < n {
 		mk := func() *string {
 			k := rng.Intn(4)
@@ -485,7 +508,7 @@ func endToEnd(meta *common.Meta, tier string, seed int64, outDir string, names [
 	for _, c := range cfgs {
 		en := []string{}
 		if c.Enable != nil {
-			en = strings.Split(*c.Enable, ",")
+			en = trimSplit(*c.Enable)
 		} else {
 			for j, nme := range names {
 				if noOptin(tags[j]) {
@@ -495,7 +518,7 @@ func endToEnd(meta *common.Meta, tier string, seed int64, outDir string, names [
 		}
 		dis := []string{""}
 		if c.Disable != nil {
-			dis = strings.Split(*c.Disable, ",")
+			dis = trimSplit(*c.Disable)
 		}
 		var want []string
 		for j, nme := range names {
@@ -603,8 +626,73 @@ func endToEnd(meta *common.Meta, tier string, seed int64, outDir string, names [
 			}
 		}
 	}
+	// the same -enable / -disable texts given to a CLI and to an analysis binary select the same checkers
+	// (lists as people type them: ", " and " ," separators, a leading blank after the '=')
+	seps := []string{",", ", ", " ,", " , "}
+	same := [][2]string{{" sloppyLen", ""}, {"#diagnostic, #style", "#experimental, #opinionated"}}
+	nSame := 4
+	if tier == "thorough" {
+		nSame = 40
+	}
+	for len(same) < nSame {
+		mk := func() string {
+			k := 1 + rng.Intn(3)
+			var ks []string
+			for i := 0; i < k; i++ {
+				ks = append(ks, alpha[rng.Intn(len(alpha))])
+			}
+			return strings.Join(ks, seps[rng.Intn(len(seps))])
+		}
+		same = append(same, [2]string{mk(), mk()})
+	}
+	for _, sd := range same {
+		sets := map[string][]string{}
+		var exes []string
+		for _, exe := range []string{"go-critic", "go-critic-analysis"} {
+			args := []string{"check", "-v"}
+			if exe != "go-critic" {
+				args = []string{"-debug-init"}
+			}
+			args = append(args, "-enable="+sd[0], "-disable="+sd[1], "./...")
+			out, _, err := common.Run(120*time.Second, ws, env, filepath.Join(bin, exe), args...)
+			ran++
+			if err != nil {
+				meta.Fail("C06/"+exe+"/e2e-run", "binary did not finish: "+err.Error(), args)
+				continue
+			}
+			sets[exe] = parseEnabled(out)
+			exes = append(exes, exe)
+		}
+		if len(exes) == 2 && !eqStrs(sets[exes[0]], sets[exes[1]]) {
+			key := "C06/frontends/same-flag-text-selects-differently"
+			if hasPadding(sd[0]) || hasPadding(sd[1]) {
+				key = "C06/frontends/padded-key-selects-differently"
+			}
+			meta.Fail(key, fmt.Sprintf("-enable=%q -disable=%q: go-critic check enables %v, go-critic-analysis enables %v", sd[0], sd[1], head(sets["go-critic"], 8), head(sets["go-critic-analysis"], 8)), map[string]interface{}{"enable": sd[0], "disable": sd[1], "binaries": exes})
+		}
+	}
+	ran += inertOutOfDomain(meta, ws, env, bin)
 	meta.Distribution["end_to_end_runs"] = ran
 	os.RemoveAll(ws)
+}
+
+// trimSplit is the property's reading of a key list: elements separated by commas, blanks around them insignificant.
+func trimSplit(s string) []string {
+	parts := strings.Split(s, ",")
+	for k := range parts {
+		parts[k] = strings.TrimSpace(parts[k])
+	}
+	return parts
+}
+
+// hasPadding: some element of the comma-separated list changes under strings.TrimSpace
+func hasPadding(list string) bool {
+	for _, k := range strings.Split(list, ",") {
+		if strings.TrimSpace(k) != k {
+			return true
+		}
+	}
+	return false
 }
 
 func head(l []string, n int) []string {
